@@ -250,7 +250,7 @@ def main():
                 tech = tech + "; " + R8[pid]
                 text = text + " Round 8 (DESIGN §10.7) adds: " + R8[pid] + "."
                 ref = ref + ", §10.7"
-            text = text + " The thorough tier also replays the independently written behaviour-preserving refactorings of /verif/benign (DESIGN §10.8) and fails if one of them is reported."
+            text = text + " The thorough tier also replays the independently written behaviour-preserving refactorings of /verif/benign (DESIGN §10.8, §10.9) and fails if one of them is reported."
             checks.append({
                 "property_id": pid,
                 "quick_cmd": "./check %s quick" % pid,
